@@ -416,6 +416,14 @@ fn secure_dump(w: &World) -> Vec<(String, String, i32)> {
     v.sort();
     v
 }
+/// a reply without the clock-derived op ids it may carry
+fn norm_reply(r: &Response) -> String {
+    match r {
+        Response::VersionError { msg, key, old_version, version, old_value, state, change, db } =>
+            format!("VersionError {} {} {} {} {} {:?} {} {}", msg, key, old_version, version, old_value.value, state, change.value, db),
+        other => format!("{:?}", other),
+    }
+}
 fn is_err(r: &Response) -> bool { matches!(r, Response::Error { .. }) }
 
 const LOGIN: [&str; 4] = ["", "use-db d tok", "use-db d usr ut", "use-db d nolist nt"];
@@ -460,7 +468,7 @@ fn scenario_session(sc: &str) -> Result<Violations, String> {
             let sel_before = (c.selected_db_name(), c.selected_db_user_name());
             let out = catch_unwind(AssertUnwindSafe(|| run_cmd(&w, &mut c, &mut rx, cmd)));
             let (r, msgs) = match out { Ok(x) => x, Err(_) => { v.push("C10.safety".into()); return Ok(v); } };
-            tr.push(format!("{:?} {:?}", r, msgs));
+            tr.push(format!("{} {:?}", norm_reply(&r), msgs));
             let word = cmd.split(' ').next().unwrap_or("");
             let key = cmd.split(' ').nth(1).unwrap_or("");
             // ---- C08: secure keys
